@@ -155,11 +155,23 @@ func runC14(c *core.Ctx) {
 	checkCoupling(c)
 
 	c.Rule("C14.get", "Progress.get: LookupByString receives the String() of the current path segment and LookupByIndex the Index() of that same segment; after each lookup and each link load a non-nil error leads only to returns carrying a nil node; links are followed only through LinkSystem.Load", 5)
-	if get := p.Func("traversal", "*Progress", "get"); get != nil {
+	// the stepwise resolver, by role: the function behind the exported (Progress).Get that walks over Path.Segments()
+	var get *ssa.Function
+	if api := p.Func("traversal", "Progress", "Get"); api != nil {
+		for _, g := range core.RegionOf(api).Fns {
+			for _, ci := range core.Calls(g) {
+				if core.IsMethod(ci, "", "Path", "Segments") && get == nil {
+					get = g
+				}
+			}
+		}
+	}
+	if get != nil {
 		key := core.FuncKey(get)
+		rgGet := core.RegionOf(get)
 		// the range variable over p.Segments(): loads of elements of the Segments() result
 		isSeg := func(v ssa.Value) bool {
-			for w := range core.BackSlice(v, core.SliceOpts{Stores: true}) {
+			for w := range core.BackSlice(v, core.SliceOpts{Stores: true, Region: rgGet}) {
 				if cl, ok := w.(*ssa.Call); ok && core.IsMethod(cl, "", "Path", "Segments") {
 					return true
 				}
@@ -167,19 +179,19 @@ func runC14(c *core.Ctx) {
 			return false
 		}
 		errIdx := core.ErrResultIndex(get)
-		for _, ci := range core.Calls(get) {
+		for _, ci := range core.CallsR(get) {
 			cv := core.CallValue(ci)
 			if cv == nil || !cv.Call.IsInvoke() {
 				continue
 			}
 			switch cv.Call.Method.Name() {
 			case "LookupByString":
-				a, ok := core.Strip(cv.Call.Args[0]).(*ssa.Call)
+				a, ok := rgGet.Canon(cv.Call.Args[0]).(*ssa.Call)
 				good := ok && core.IsMethod(a, "", "PathSegment", "String") && isSeg(a.Call.Args[0])
 				c.Check(good, key+"#map-step", p.Pos(cv.Pos()), "map step uses the segment's string", "LookupByString is not given the String() of the current path segment")
 			case "LookupByIndex":
 				good := false
-				if e, ok := core.Strip(cv.Call.Args[0]).(*ssa.Extract); ok && e.Index == 0 {
+				if e, ok := rgGet.Canon(cv.Call.Args[0]).(*ssa.Extract); ok && e.Index == 0 {
 					if a, ok := e.Tuple.(*ssa.Call); ok && core.IsMethod(a, "", "PathSegment", "Index") && isSeg(a.Call.Args[0]) {
 						good = true
 					}
@@ -196,14 +208,14 @@ func runC14(c *core.Ctx) {
 			c.Check(len(nilEdges) > 0 && !reached, key+"#"+cv.Call.Method.Name()+"-error", p.Pos(cv.Pos()), "lookup failure returns an error and no node", "after a failed lookup a return without error (or with a node) is reachable", p.Witness(path)...)
 		}
 		loads := 0
-		for _, ci := range core.Calls(get) {
+		for _, ci := range core.CallsR(get) {
 			if cal := ci.Common().StaticCallee(); cal != nil && cal.Name() == "Load" && core.IsMethod(ci, "", "LinkSystem", "Load") {
 				loads++
 			}
 		}
 		c.Check(loads >= 1, key+"#links-through-linksystem", p.Pos(get.Pos()), "links are loaded through LinkSystem.Load", "get does not load links through LinkSystem.Load")
 	} else {
-		c.Undecided("traversal.(*Progress).get", "-", "not found")
+		c.Undecided("traversal.(Progress).Get#resolver", "-", "no function behind (Progress).Get walks over Path.Segments()")
 	}
 }
 
@@ -424,7 +436,20 @@ func coupledAt(p *core.Program, fn *ssa.Function, seg, node ssa.Value, depth int
 
 func checkCoupling(c *core.Ctx) {
 	p := c.P
-	descentNames := map[string]bool{"walkAdv": true, "WalkLocal": true, "walkTransforming": true, "WalkTransforming": true, "walkBlock": true, "focusedTransform": true, "explore": true}
+	// a descent: a static call of a function of the package that takes a node and is part of a recursion (the walks and
+	// the focused transform all recurse through such calls), whatever it is called
+	tr := newTravRoles(p)
+	isDescentCallee := func(cal *ssa.Function) bool {
+		if cal == nil || len(cal.Blocks) == 0 || !tr.recursive(cal) {
+			return false
+		}
+		for _, prm := range cal.Params {
+			if isNodeType(prm.Type()) {
+				return true
+			}
+		}
+		return false
+	}
 	for _, fn := range p.ModFns {
 		pk := core.FuncPkg(fn)
 		if pk == nil || core.RelPkg(pk.Path()) != "traversal" || len(fn.Blocks) == 0 || fn.Synthetic != "" {
@@ -444,7 +469,7 @@ func checkCoupling(c *core.Ctx) {
 		n := 0
 		for _, ci := range core.Calls(fn) {
 			cal := ci.Common().StaticCallee()
-			if cal == nil || !descentNames[cal.Name()] || core.FuncPkg(cal) != pk {
+			if cal == nil || core.FuncPkg(cal) != pk || !isDescentCallee(cal) {
 				continue
 			}
 			// the child node argument
